@@ -338,7 +338,7 @@ fn c14_dns_question() {
 
 //# harness: c14_dns_assembly_1
 //# props: C14 C12 C01
-//# tier: thorough
+//# tier: extended
 //# timeout: 1400
 //# encodes: proto::dns::DNSPacket::repl (assembly of header, echoed questions and answers), DNSHeader::repl, DNSQuery::repl, DNSRR
 //# bounds: header from 12 symbolic bytes (QDCOUNT = 1); 1 question(s) with one-byte names built directly in their parsed state, each IN/A or IN/TXT (symbolic choice); destination address symbolic
@@ -354,7 +354,7 @@ fn c14_dns_assembly_1() {
 
 //# harness: c14_dns_assembly_2
 //# props: C14 C12 C01
-//# tier: thorough
+//# tier: extended
 //# timeout: 1400
 //# encodes: proto::dns::DNSPacket::repl (assembly of header, echoed questions and answers), DNSHeader::repl, DNSQuery::repl, DNSRR
 //# bounds: header from 12 symbolic bytes (QDCOUNT = 2); 2 question(s) with one-byte names built directly in their parsed state, each IN/A or IN/TXT (symbolic choice); destination address symbolic
